@@ -2,8 +2,9 @@
 # usage: tools/tsan.sh <ID> [scale]     auxiliary, NOT a registered check.
 # Builds the harness and /repo (with hooks) under ThreadSanitizer (nightly, -Zbuild-std, offline) and runs
 # the property's quick workload at a reduced scale. Evidence goes to /verif/target/tsan/evidence, TSan
-# reports to /verif/target/tsan/logs. Prints the number of report blocks and how many of them have a
-# frame inside rs_opw_kinematics. Corroboration for the schedule clauses of C10 / C12 / C14 only.
+# reports to /verif/target/tsan/logs. Report blocks are classified by the innermost frames of the two
+# racing accesses (tools/tsan_classify.py): crossbeam-deque's fence-ordered buffer is a known TSan
+# false positive; anything else is listed. Corroboration for the schedule clauses of C10 / C12 / C14 only.
 ID=${1:-C10}; SCALE=${2:-0.05}
 export CARGO_NET_OFFLINE=true CARGO_TARGET_DIR=/verif/target/tsan
 export RUSTFLAGS="-Zsanitizer=thread -Cunsafe-allow-abi-mismatch=sanitizer"
@@ -17,6 +18,5 @@ TSAN_OPTIONS="halt_on_error=0 log_path=/verif/target/tsan/logs/tsan second_deadl
 VERIF_EVIDENCE_DIR=/verif/target/tsan/evidence VERIF_SCALE=$SCALE \
   /verif/target/tsan/x86_64-unknown-linux-gnu/release/opwmon check $ID quick
 code=$?
-blocks=$(cat /verif/target/tsan/logs/tsan.* 2>/dev/null | grep -c "WARNING: ThreadSanitizer")
-inrepo=$(cat /verif/target/tsan/logs/tsan.* 2>/dev/null | awk '/WARNING: ThreadSanitizer/{b++} /rs_opw_kinematics::/{if(!(b in s)){s[b]=1;n++}} END{print n+0}')
-echo "TSAN property=$ID monitor_exit=$code report_blocks=$blocks blocks_with_rs_opw_kinematics_frame=$inrepo (auxiliary, not a verdict)"
+echo "TSAN property=$ID monitor_exit=$code (66 = TSan saw at least one report; auxiliary, not a verdict)"
+python3 /verif/tools/tsan_classify.py /verif/target/tsan/logs/tsan.
